@@ -534,6 +534,12 @@ func (db *SpecDB) loadSpecFile(path, pkgPath string, assumed bool) error {
 					old.Assumed, old.View = true, true
 					db.Views[old.Pkg+"|"+key] = old
 					db.Funcs[key] = curFunc
+				case old.Pkg != curFunc.Pkg && !home(old) && !home(curFunc) && !strings.Contains(key, "AdguardTeam/AdGuardDNS"):
+					// two packages each state their own view of a dependency
+					// function: each view is used for calls from its package
+					old.Assumed, old.View, curFunc.Assumed, curFunc.View = true, true, true, true
+					db.Views[old.Pkg+"|"+key] = old
+					db.Views[curFunc.Pkg+"|"+key] = curFunc
 				default:
 					return fmt.Errorf("%s: duplicate contract for %s (first at %s:%d)", where, key, old.File, old.Line)
 				}
